@@ -21,9 +21,13 @@
 // R: a static tree built with the library's own recursion macros rRecur / rRecurs / rRecurp /
 // rRecursp (port-sugar.h); only its ports without sub-table log, and they print the object
 // they were handed as the chain of (port index, element index) that leads to it.
-// Every message is dispatched twice on fresh RtData objects: with a location buffer of
-// <locsize> bytes (exact-size heap block) and without.  The message lives in an exact-size
-// heap block of message size + <slack> bytes.
+// Every message is dispatched twice: with a location buffer of <locsize> bytes (exact-size heap
+// block) and without.  `<locsize>+<slack>`: on fresh RtData objects for every message;
+// `<locsize>+<slack>+k`: the two RtData objects (and the location buffer) are set up once, before the
+// first message of the line, and used for all of them — the line is an operation history on one
+// RtData: what a dispatch leaves behind in it (d.obj, d.port, d.loc, d.matches) is what the next
+// one starts with.  d.obj after each dispatch is printed (`o<object>`).  The message lives in an
+// exact-size heap block of message size + <slack> bytes.
 // Only observables are printed, in canonical form (see the driver) — never the hash tables.
 #include "common.h"
 #include <rtosc/rtosc.h>
@@ -481,8 +485,32 @@ static std::string final_loc(const char *loc) {
     return hexs(loc);
 }
 
+// the two RtData objects a message is dispatched with.  keep = false: fresh ones for every message;
+// keep = true: made once per op line (d.obj, d.port, d.loc set before the first message, as an
+// application does that sets up its RtData once) and used for every message of the line
 template <class Data>
-static std::string one_msg(const rtosc::Ports &ports, void *rootobj, bool sugar, size_t locsize, size_t slack, const std::string &tok) {
+struct Pair {
+    std::unique_ptr<Exact> L;
+    std::unique_ptr<Data> dl, dn;
+    void fresh(void *rootobj, size_t locsize, bool base) {
+        L.reset(new Exact(locsize, base ? 0xAA : 0x00));
+        dl.reset(new Data);
+        dl->loc = L->c();
+        dl->loc_size = locsize;
+        dl->obj = rootobj;
+        dl->port = nullptr;
+        dn.reset(new Data);
+        dn->loc = nullptr;
+        dn->loc_size = 0;
+        dn->obj = rootobj;
+        dn->port = nullptr;
+    }
+};
+static std::string show_obj_after(bool sugar, void *obj);
+
+template <class Data>
+static std::string one_msg(const rtosc::Ports &ports, void *rootobj, bool sugar, size_t locsize, size_t slack, const std::string &tok,
+                           bool keep, Pair<Data> &pr) {
     if (tok.size() < 2) return "bad-msg";
     bool base = tok[0] == 'B';
     size_t colon = tok.find(':');
@@ -492,45 +520,52 @@ static std::string one_msg(const rtosc::Ports &ports, void *rootobj, bool sugar,
     bytes mb;
     build_msg(addr, tags, slack, mb);
     Exact M(mb);
+    if (!keep || !pr.dl) pr.fresh(rootobj, locsize, base);
     std::string out;
     {   // with location buffer
-        Exact L(locsize, base ? 0xAA : 0x00);
-        Data d;
-        d.loc = L.c();
-        d.loc_size = locsize;
-        d.obj = rootobj;
-        d.port = nullptr;
+        Data &d = *pr.dl;
         Log lg;
         lg.base = M.c();
         lg.sugar = sugar;
         g_log = &lg;
         ports.dispatch(M.c(), d, base);
         g_log = nullptr;
-        out += show_calls(lg) + "m" + std::to_string(d.matches) + "p" + final_port(lg, d.port) + "l" + final_loc(d.loc);
+        out += show_calls(lg) + "m" + std::to_string(d.matches) + "p" + final_port(lg, d.port) + "l" + final_loc(d.loc) +
+               "o" + show_obj_after(sugar, d.obj);
     }
     out += "/";
     {   // without
-        Data d;
-        d.loc = nullptr;
-        d.loc_size = 0;
-        d.obj = rootobj;
-        d.port = nullptr;
+        Data &d = *pr.dn;
         Log lg;
         lg.base = M.c();
         lg.sugar = sugar;
         g_log = &lg;
         ports.dispatch(M.c(), d, base);
         g_log = nullptr;
-        out += show_calls(lg) + "p" + final_port(lg, d.port);
+        out += show_calls(lg) + "p" + final_port(lg, d.port) + "o" + show_obj_after(sugar, d.obj);
     }
     return out;
 }
 
-static bool parse_sizes(const std::string &w, size_t &locsize, size_t &slack) {
+// d.obj after the dispatch: the path of the table object (D) / the chain of the object (R)
+static std::string show_obj_after(bool sugar, void *obj) {
+    if (!obj) return "?";
+    if (sugar) return obj_chain(obj);
+    return ((TNode *)obj)->path;
+}
+
+// <locsize>+<slack>[+k]: a third field `k` = the RtData objects are kept for the whole line
+static bool parse_sizes(const std::string &w, size_t &locsize, size_t &slack, bool &keep) {
     size_t plus = w.find('+');
     if (plus == std::string::npos) return false;
     locsize = (size_t)atol(w.substr(0, plus).c_str());
     slack = (size_t)atol(w.substr(plus + 1).c_str());
+    size_t plus2 = w.find('+', plus + 1);
+    keep = false;
+    if (plus2 != std::string::npos) {
+        if (w.substr(plus2 + 1) != "k") return false;
+        keep = true;
+    }
     return true;
 }
 
@@ -543,15 +578,17 @@ static std::string op_D(const std::vector<std::string> &w) {
     g_root = &root;
     if (!build(ast, root, "r")) return "bad-op";
     size_t locsize, slack;
-    if (!parse_sizes(w[2], locsize, slack)) return "bad-op";
+    bool keep;
+    if (!parse_sizes(w[2], locsize, slack, keep)) return "bad-op";
     std::string out;
     std::istringstream is(w[3]);
     std::string tok;
     bool first = true;
+    Pair<rtosc::RtData> pr;
     while (std::getline(is, tok, ';')) {
         if (!first) out += "|";
         first = false;
-        out += one_msg<rtosc::RtData>(*root.use, &root, false, locsize, slack, tok);
+        out += one_msg<rtosc::RtData>(*root.use, &root, false, locsize, slack, tok, keep, pr);
     }
     return out;
 }
@@ -562,15 +599,17 @@ static std::string op_R(const std::vector<std::string> &w) {
     std::string want = ports_token(STop::ports);
     if (w[1] != want) return "bad-tree:" + want;
     size_t locsize, slack;
-    if (!parse_sizes(w[2], locsize, slack)) return "bad-op";
+    bool keep;
+    if (!parse_sizes(w[2], locsize, slack, keep)) return "bad-op";
     std::string out;
     std::istringstream is(w[3]);
     std::string tok;
     bool first = true;
+    Pair<SugarData> pr;
     while (std::getline(is, tok, ';')) {
         if (!first) out += "|";
         first = false;
-        out += one_msg<SugarData>(STop::ports, &g_world->top, true, locsize, slack, tok);
+        out += one_msg<SugarData>(STop::ports, &g_world->top, true, locsize, slack, tok, keep, pr);
     }
     return out;
 }
